@@ -17,13 +17,16 @@ const (
 
 func init() {
 	Registry["C03"] = Spec{
-		Pkgs: map[string][]string{"v2": {"astnorm", "ast"}},
+		Pkgs: map[string][]string{"v2": {"astnorm", "ast", "astvisitor"}},
 		Run:  runC03,
 		Explanation: "Decides the structural half of 'normalization preserves meaning': every astvisitor callback a normalization visitor implements is registered with its walker (no rewrite silently dead) and per-walk state of the reusable visitors is re-initialised when a document/operation is entered; " +
 			"the walker stages are appended in the partial order the rules' contracts require (operation selection first, cycle detection before fragment inlining, variable-usage detection before deletion, inlining ≺ defer expansion ≺ variable extraction ≺ inline-fragment flattening ≺ merging ≺ de-duplication, extraction before variable post-processing); " +
 			"two fields are treated as the same field only when name, alias, absence of selections, arguments and directives agree, and a selection is removed only on that verdict after its defer information was merged. " +
 			"It does not decide exec(norm(q)) == exec(q), validity preservation or idempotence (value level).",
 		Mutants: []Mutant{
+			{Name: "walker ranges over the directives of a field with a captured slice header (reverts part of the F55 fix)", File: "v2/pkg/astvisitor/visitor.go", Rule: "C03-R10", Key: "Walker/walkField/re-reads:Fields.Directives.Refs",
+				Old: "\t\tfor idx := 0; idx < len(w.document.Fields[ref].Directives.Refs); {\n\t\t\ti := w.document.Fields[ref].Directives.Refs[idx]\n\t\t\tw.walkDirective(i, skipFor)\n\t\t\tif w.stop {\n\t\t\t\treturn\n\t\t\t}\n\t\t\tif idx < len(w.document.Fields[ref].Directives.Refs) && w.document.Fields[ref].Directives.Refs[idx] == i {\n\t\t\t\tidx++\n\t\t\t}\n\t\t}\n",
+				New: "\t\tfor _, i := range w.document.Fields[ref].Directives.Refs {\n\t\t\tw.walkDirective(i, skipFor)\n\t\t\tif w.stop {\n\t\t\t\treturn\n\t\t\t}\n\t\t}\n"},
 			{Name: "label of @defer read without a kind test (reverts the F49 fix)", File: "v2/pkg/astnormalization/defer_expand_into_internal.go", Rule: "C03-R9", Key: "deferExpandIntoInternalVisitor.EnterInlineFragment/kind-matches-ref:StringValueContentString",
 				Old: "\tif hasLabel && labelValue.Kind == ast.ValueKindString {\n", New: "\tif hasLabel {\n"},
 			{Name: "ids of the internal defer directive read without a kind test (reverts the F50 fix)", File: "v2/pkg/ast/ast_field.go", Rule: "C03-R9", Key: "Document.MergeFieldsDefer/kind-matches-ref:IntValueAsInt",
@@ -76,6 +79,9 @@ func runC03(r *fw.Run) {
 
 	r.Rule("C03-R8", "for every node type of package ast that has both a Copy and an equality function, the equality reads every field the Copy treats as content of the node (positions are not content; four frozen, reasoned exceptions)")
 	copyEqualAgreement(r, "C03-R8", 12)
+
+	r.Rule("C03-R10", "for every node kind whose directive list a visitor may shrink (ast.Document.RemoveDirectiveFromNode), the Walker's loop over that list re-reads it on every step instead of ranging over a captured slice header")
+	walkerRereadsShrinkableLists(r, "C03-R10")
 
 	r.Rule("C03-R9", "normalization runs before validation: in astnormalization and package ast the ref of an ast.Value is handed to an accessor of kind K (doc.<K>Value…(v.Ref), doc.<K>Values[v.Ref]) only where v.Kind is known to be K (equality or switch clause on the same value, a boolean local defined from it, or every caller of an unexported helper); VariableDefinition.VariableValue is a variable by construction")
 	nKR := kindRefAgreement(r, "C03-R9", []string{"astnorm", "ast"}, nil)
